@@ -683,7 +683,10 @@ def _defender(rng, cfg: dict, size: int) -> dict:
             "observation_space": {"type": "custom", "options": {"components": comps}},
             "action_space": {"action_map": amap},
             "reward_function": {"reward_components": rew},
-            "agent_settings": {"flatten_obs": rng.chance(1, 2), "action_masking": rng.chance(1, 3)}}
+            # a flattened space must not contain a dictionary without entries: since fix 8b0dbdb the loader REJECTS such an agent
+            # (documented ValidationError), so a scenario that observes no host (e.g. a network of printers only) is generated
+            # unflattened; the draw is made either way, so every other generated scenario is what it was
+            "agent_settings": {"flatten_obs": rng.chance(1, 2) and bool(host_obs), "action_masking": rng.chance(1, 3)}}
 
 
 def _scripted(rng, cfg: dict) -> List[dict]:
